@@ -21,14 +21,16 @@ type Program struct {
 }
 
 type progOpts struct {
-	ticks     bool // sprinkle {{ tick() }} calls
-	includes  bool // include / import / extends-free composition through helper files
-	inherit   bool // root may extend a base with blocks
-	maxDepth  int
-	maxNodes  int
-	errProne  bool // allow constructs that often fail at run time (1/zero, wrong calls)
-	stateful  bool // cycle / ifchanged (subject to excludes)
-	nondeterm bool // now without fake, lorem random, random filter (C01 only)
+	ticks      bool // sprinkle {{ tick() }} calls
+	includes   bool // include / import / extends-free composition through helper files
+	inherit    bool // root may extend a base with blocks
+	maxDepth   int
+	maxNodes   int
+	errProne   bool // allow constructs that often fail at run time (1/zero, wrong calls)
+	stateful   bool // cycle / ifchanged (subject to excludes)
+	nondeterm  bool // now without fake, lorem random, random filter (C01 only)
+	taint      bool // C02: no opt-outs of autoescaping, template text and literals free of < > & ' "
+	allFilters bool // draw filter names from the registry (hook) instead of the curated lists
 }
 
 type progGen struct {
@@ -69,13 +71,30 @@ func (g *progGen) name() string {
 	return pick(g.t, "name", pool)
 }
 
+// atomNoCall: a filter parameter (the grammar allows a variable or literal there)
+func (g *progGen) atomNoCall() string {
+	switch g.drawInt(0, 3, "pk") {
+	case 0:
+		return fmt.Sprint(g.drawInt(0, 12, "pint"))
+	case 1:
+		return pick(g.t, "pstr", []string{`"lit"`, `","`, `"1:2"`, `"a,b"`, `""`})
+	}
+	return g.name()
+}
+
 func (g *progGen) atom() string {
 	switch g.drawInt(0, 9, "atom") {
 	case 0:
 		return fmt.Sprint(g.drawInt(0, 12, "int"))
 	case 1:
+		if g.o.taint {
+			return pick(g.t, "strlit", []string{`"lit"`, `'s'`, `"a b"`, `""`})
+		}
 		return pick(g.t, "strlit", []string{`"lit"`, `'s'`, `"a b"`, `""`, `"<i>"`, `"q\"q"`})
 	case 2:
+		if g.chance(3, "arr") {
+			return pick(g.t, "arrlit", []string{"[name, 1]", "[name]|first", "[title, name]|last", "[html]|join:\", \""})
+		}
 		return pick(g.t, "kw", []string{"true", "false", "1.5", "nothing", "forloop.Counter"})
 	case 3:
 		if g.o.ticks && g.chance(2, "tickatom") {
@@ -92,13 +111,29 @@ func (g *progGen) atom() string {
 	}
 }
 
+var progOptOutFilters = map[string]bool{"safe": true, "truncatechars_html": true, "truncatewords_html": true}
+
 func (g *progGen) filtered(x string) string {
 	n := g.drawInt(0, 2, "nfilters")
 	for i := 0; i < n; i++ {
+		if g.o.allFilters && g.chance(2, "regfilter") {
+			f := pick(g.t, "anyfilter", pongo2.VerifRegisteredFilters())
+			if g.o.taint && progOptOutFilters[f] || !g.o.nondeterm && f == "random" {
+				continue
+			}
+			x += "|" + f
+			if g.chance(2, "regparam") {
+				x += ":" + g.atomNoCall()
+			}
+			continue
+		}
 		if g.chance(2, "argf") {
 			names := sortedFilterArgNames
 			f := pick(g.t, "farg", names)
 			if (f == "date" || f == "time") && !g.chance(4, "datef") {
+				continue
+			}
+			if g.o.taint && progOptOutFilters[f] {
 				continue
 			}
 			x += "|" + f + ":" + pick(g.t, "fargv", progFiltersArg[f])
@@ -106,6 +141,9 @@ func (g *progGen) filtered(x string) string {
 			f := pick(g.t, "fnoarg", progFiltersNoArg)
 			if g.o.nondeterm && g.chance(6, "rnd") {
 				f = "random"
+			}
+			if g.o.taint && progOptOutFilters[f] {
+				continue
 			}
 			x += "|" + f
 		}
@@ -146,6 +184,9 @@ func (g *progGen) expr(depth int) string {
 }
 
 func (g *progGen) text() string {
+	if g.o.taint {
+		return pick(g.t, "text", []string{"T", " ", "\n", "a b", "  x\n", "é", "[", "]", ".", "\n\n", "\t", "}", "-", "%"})
+	}
 	return pick(g.t, "text", []string{"T", " ", "\n", "a b", "<p>", "</p>", "  x\n", "é", "[", "]", ".", "\n\n", "\t", "<b> </b>", "}", "-", "%"})
 }
 
@@ -345,10 +386,20 @@ func (g *progGen) node(depth int) string {
 	case "firstof":
 		return "{% firstof " + g.atom() + " " + g.atom() + " " + g.filtered(g.atom()) + " %}"
 	case "filter":
+		if g.o.taint {
+			// only filters that neither create markup nor cut entities; body prints scalars only
+			f := pick(g.t, "ftag", []string{"upper", "lower|capfirst", "title", "ljust:8", "upper|center:12", "linenumbers"})
+			body := g.text() + "{{ " + g.name() + " }}" + g.text()
+			return "{% filter " + f + " %}" + body + "{% endfilter %}"
+		}
 		f := pick(g.t, "ftag", []string{"upper", "lower|capfirst", "truncatechars:9", "escape", "striptags|upper", "cut:\"a\"", "linebreaksbr", "safe", "title"})
 		return "{% filter " + f + " %}" + g.body(depth-1) + "{% endfilter %}"
 	case "autoescape":
-		return "{% autoescape " + pick(g.t, "ae", []string{"on", "off"}) + " %}" + g.body(depth-1) + "{% endautoescape %}"
+		mode := pick(g.t, "ae", []string{"on", "off"})
+		if g.o.taint {
+			mode = "on"
+		}
+		return "{% autoescape " + mode + " %}" + g.body(depth-1) + "{% endautoescape %}"
 	case "spaceless":
 		return "{% spaceless %}" + g.body(depth-1) + "{% endspaceless %}"
 	case "comment":
@@ -370,7 +421,11 @@ func (g *progGen) node(depth int) string {
 		}
 		return s + " %}"
 	case "lorem":
-		s := "{% lorem " + fmt.Sprint(g.drawInt(0, 4, "lcount")) + " " + pick(g.t, "lm", []string{"w", "p", "b"})
+		methods := []string{"w", "p", "b"}
+		if g.o.taint {
+			methods = []string{"w", "b"} // "p" writes <p> tags of its own
+		}
+		s := "{% lorem " + fmt.Sprint(g.drawInt(0, 4, "lcount")) + " " + pick(g.t, "lm", methods)
 		if g.o.nondeterm && g.chance(3, "lrand") {
 			s += " random"
 		}
@@ -399,7 +454,7 @@ func (g *progGen) helper(depth int) string {
 	if depth > 2 {
 		depth = 2
 	}
-	g.files[name] = "<" + g.body(depth) + "{{ x }}>"
+	g.files[name] = "[" + g.body(depth) + "{{ x }}]"
 	g.scope = saved
 	return name
 }
@@ -407,20 +462,23 @@ func (g *progGen) helper(depth int) string {
 func progFixedFiles() map[string]string {
 	return map[string]string{
 		"/macros.tpl": `{% macro imp_box(v) export %}[{{ v }}]{% endmacro %}{% macro imp_row(a, b=1) export %}({{ a }}:{{ b }}){% endmacro %}`,
-		"/part.tpl":   `part<{{ name }}|{{ n }}>`,
+		"/part.tpl":   `part[{{ name }}|{{ n }}]`,
 		"/plain.txt":  `plain {{ not_evaluated }} text`,
 		"/lazy.tpl":   `lazy[{{ name|upper }}{% for i in nums %}{{ i }}{% endfor %}]`,
 	}
 }
 
-func genProgram(t *rapid.T, o progOpts) *Program {
+func genProgram(t *rapid.T, o progOpts) *Program { return genProgramWith(t, o, nil) }
+
+// genProgramWith: extraNames are additional context names the program may mention
+func genProgramWith(t *rapid.T, o progOpts, extraNames []string) *Program {
 	if o.maxDepth == 0 {
 		o.maxDepth = 4
 	}
 	if o.maxNodes == 0 {
 		o.maxNodes = 40
 	}
-	g := &progGen{t: t, o: o, files: progFixedFiles()}
+	g := &progGen{t: t, o: o, files: progFixedFiles(), scope: append([]string{}, extraNames...)}
 	n := drawInt(t, 1, 6, "rootlen")
 	var sb strings.Builder
 	for i := 0; i < n && g.nodes < o.maxNodes; i++ {
